@@ -142,9 +142,12 @@ def handle (j : Json) : R Json := do
       match bs.mapM (fun b => featureFromJson (featureToJson b)) with
       | some bs' => readRecord r.len r.circular bs'
       | none => throw "value-error"
+    -- the record the spec compares with: the input, unless the harness sends a reduced one (features
+    -- belonging to a recorded finding taken out on both sides)
+    let rs := (← optRec j "spec_rec").getD r
     let spec (key : String) (textual : Bool) : R Json := do
       match ← optRec j key with
-      | some r' => pure (toJson (sameRecord textual r r'))
+      | some r' => pure (toJson (sameRecord textual rs r'))
       | none => pure Json.null
     let modelSame := match r1 with | .ok r' => sameRecord false r r' | .error _ => false
     let fixed := match w1, w2 with | .ok a, .ok b => a == b | _, _ => false
